@@ -403,6 +403,78 @@ class Gen:
         return out
 
 
+CHARS = list("abcxyzefEF_AZ0123456789 .+-*/&()[]{}<>,;:=~\"'\t\n @#$\\|!%^?`") + ["\u00e9", "\u03bb", "\u2192", "\u2028", "\u00a0", "\r"]
+NUMS = ["0", "12", "1.", ".5", "1.5", "1e5", "1.e5", "1.5e+3", "2E-7", "1e", "1e+", "1.2.3", "..", "...", "....", "1..2", ".e5", "5.e",
+        "0x1F", "1_0", "00.0e00", "9e9e9"]
+
+
+def spaced(r, toks):
+    """join lexemes with random white space (none where the two lexemes cannot merge)"""
+    out = []
+    for i, t in enumerate(toks):
+        if i:
+            k = r.random()
+            prev = toks[i - 1]
+            glue_ok = not ((prev[-1:].isalnum() or prev[-1:] in "_.") and (t[:1].isalnum() or t[:1] in "_.")) \
+                and not (prev[-1:] in ":." and t[:1] in ":.") and prev[-1:] not in "\"'" and t[:1] not in "\"'"
+            if k < 0.25 and glue_ok:
+                pass
+            elif k < 0.8:
+                out.append(" ")
+            elif k < 0.9:
+                out.append("  ")
+            elif k < 0.95:
+                out.append("\t")
+            else:
+                out.append(" \n ")
+        out.append(t)
+    return "".join(out)
+
+
+def char_mutate(r, s):
+    k = r.randrange(4)
+    if not s:
+        return r.choice(CHARS)
+    i = r.randrange(len(s))
+    if k == 0:
+        return s[:i] + s[i + 1:]
+    if k == 1:
+        return s[:i] + r.choice(CHARS) + s[i + 1:]
+    if k == 2:
+        return s[:i] + r.choice(CHARS) + s[i:]
+    return s[:i] + r.choice(NUMS) + s[i:]
+
+
+def char_streams(r, n, maxdepth=3):
+    """character-level inputs: valid declarations with random spacing, single-character mutations of them,
+    random strings over the declaration alphabet (+ a few non-ASCII characters), number-shaped fragments"""
+    g = Gen(r, maxdepth)
+    out = []
+    for i in range(n):
+        k = i % 4
+        if k == 0:
+            out.append(("valid", spaced(r, g.decl())))
+        elif k == 1:
+            out.append(("mutated", char_mutate(r, spaced(r, g.decl()))))
+        elif k == 2:
+            out.append(("random", "".join(r.choice(CHARS) for _ in range(r.randrange(1, 14)))))
+        else:
+            out.append(("numeric", " ".join(r.choice(NUMS + ["x", "int", "+", "e5", "E", "::", ":"]) for _ in range(r.randrange(1, 5)))))
+    out += [("numeric", x) for x in NUMS]
+    return out
+
+
+def real_lex(text):
+    declast, _ = mods()
+    try:
+        toks = list(declast.tokenize(text))
+    except RuntimeError as e:
+        return "reject " + common.enc(last_line(e))
+    except Exception as e:  # noqa
+        return "crash " + type(e).__name__
+    return "ok " + (" ".join("%s:%s" % (t.typ, common.enc(t.value)) for t in toks) if toks else "~")
+
+
 def mutate(r, toks):
     """single-token mutation: delete / replace / insert / swap / duplicate"""
     toks = list(toks)
